@@ -36,3 +36,15 @@ SPEC = {
 
 def run(ctx):
     vf.standard_run(ctx, SPEC)
+
+
+def replay(ctx, path):
+    """Re-run the stored case: the harness is deterministic in (seed, tier), so
+    the whole generation is repeated with the seed / tier recorded in the replay
+    file and evaluated again (the failing case reappears at the same index)."""
+    import json
+    d = json.load(open(path))
+    ctx.seed = int(d.get("seed", ctx.seed))
+    ctx.tier = d.get("tier", ctx.tier)
+    run(ctx)
+    return vf.finish(ctx)
